@@ -12,6 +12,7 @@
 //@typemap /::<G::ScalarField>/ => 
 //@typemap /<G::ScalarField as Field>::/ => Fr::
 //@typemap /\bF::/ => Fr::
+//@typemap /\bark_std::log2\(/ => log2_ceil(
 //@typemap /Vec<F>/ => Vec<Fr>
 //@enum file=poly-commit/src/error.rs name=Error
 //@struct file=poly-commit/src/ipa_pc/data_structures.rs name=CommitterKey
@@ -59,6 +60,35 @@ pub open spec fn ipa_acc_c(cs: Seq<&LabeledCommitment<Commitment>>, s: SS, k: na
         match cs[j as int].degree_bound { Some(b) => f_add(a, f_mul(cs[j as int].commitment.shifted_comm->Some_0@, sp_chal(s, 2 * j + 1))), None => a } }
 }
 
+// round challenges rc_0 = RO(C || z || v),  rc_{k+1} = RO(rc_k || L_k || R_k);  folded commitment after k rounds
+pub open spec fn ipa_rc(first: FS, ls: Seq<G1Affine>, rs: Seq<G1Affine>, k: nat) -> FS decreases k {
+    if k == 0 { first } else { ro_chal(Seq::<u8>::empty() + fr_ser_u(ipa_rc(first, ls, rs, (k - 1) as nat)) + g1_ser_u(ls[k - 1]@) + g1_ser_u(rs[k - 1]@)) }
+}
+pub open spec fn ipa_rcomm(start: FS, first: FS, ls: Seq<G1Affine>, rs: Seq<G1Affine>, k: nat) -> FS decreases k {
+    if k == 0 { start } else { f_add(ipa_rcomm(start, first, ls, rs, (k - 1) as nat),
+        f_add(f_mul(ls[k - 1]@, f_inv(ipa_rc(first, ls, rs, k))), f_mul(rs[k - 1]@, ipa_rc(first, ls, rs, k)))) }
+}
+pub open spec fn ipa_rcs(first: FS, ls: Seq<G1Affine>, rs: Seq<G1Affine>, n: nat) -> Seq<FS> { Seq::new(n, |i: int| ipa_rc(first, ls, rs, (i + 1) as nat)) }
+// the accumulated commitment (with the hiding correction) that enters the rounds
+pub open spec fn ipa_comb(vk: &VerifierKey, cs: Seq<&LabeledCommitment<Commitment>>, vs: Seq<Fr>, z: Fr, pr: &Proof, s: SS, n: nat) -> FS {
+    let c0 = ipa_acc_c(cs, s, n); let v = ipa_acc_v(cs, vs, z@, (vk.comm_key@.len() - 1) as nat, s, n);
+    if pr.hiding_comm is Some {
+        let hc = ro_chal(Seq::<u8>::empty() + g1_ser_u(c0) + fr_ser_u(z@) + fr_ser_u(v) + g1_ser_u(pr.hiding_comm->Some_0@));
+        f_add(c0, f_sub(f_mul(pr.hiding_comm->Some_0@, hc), f_mul(vk.s@, pr.rand->Some_0@)))
+    } else { c0 }
+}
+pub open spec fn ipa_first(comb: FS, z: FS, v: FS) -> FS { ro_chal(Seq::<u8>::empty() + g1_ser_u(comb) + fr_ser_u(z) + fr_ser_u(v)) }
+// published relation (DL/IPA PC of [BCMS20] sec. 3 / Halo): the folded commitment equals  c*U + c*h(z)*h'
+pub open spec fn ipa_relation(vk: &VerifierKey, cs: Seq<&LabeledCommitment<Commitment>>, vs: Seq<Fr>, z: Fr, pr: &Proof, s: SS, n: nat) -> bool {
+    let v = ipa_acc_v(cs, vs, z@, (vk.comm_key@.len() - 1) as nat, s, n);
+    let comb = ipa_comb(vk, cs, vs, z, pr, s, n);
+    let first = ipa_first(comb, z@, v);
+    let hp = f_mul(vk.h@, first);
+    let k = min(pr.l_vec@.len(), pr.r_vec@.len());
+    let rcomm = ipa_rcomm(f_add(comb, f_mul(hp, v)), first, pr.l_vec@, pr.r_vec@, k);
+    let u = ipa_rcs(first, pr.l_vec@, pr.r_vec@, k);
+    f_sub(rcomm, f_add(f_add(f_add(f_zero(), f_mul(pr.final_comm_key@, pr.c@)), f_mul(hp, f_mul(scp_eval(u, z@, k), pr.c@))), f_zero())) == f_zero()
+}
 pub struct InnerProductArgPC;
 impl InnerProductArgPC {
     // compute_random_oracle_challenge loops over a hash until from_random_bytes succeeds: taken by contract (deterministic function of the bytes)
@@ -73,6 +103,57 @@ impl InnerProductArgPC {
 //@closure |s| => |s: &Fr| -> (b: BigInt) ensures b@ == s@
 //@after /let scalars_bigint =/
         proof { assert(bviews(scalars_bigint@) =~= fviews(scalars@)); broadcast use ax_add_zero; }
+//@end
+
+//@fn id=ipa.succinct_check file=poly-commit/src/ipa_pc/mod.rs scope="impl<G, D, P> InnerProductArgPC<G, D, P>" name=succinct_check props=C10,C02,C04,C11,C17
+    #[verifier::loop_isolation(false)]
+    fn succinct_check<'a>(vk: &VerifierKey, commitments: Vec<&'a LabeledCommitment<Commitment>>, point: Fr, values: Vec<Fr>, proof: &Proof, sponge: &mut Sponge) -> (res: Option<SuccinctCheckPolynomial>)
+    requires
+        vk.comm_key@.len() >= 1, vk.comm_key@.len() < usize::MAX,
+        // a degree bound above the supported degree, or 32 or more rounds, overflow in the real code and abort
+        forall|i: int| 0 <= i < commitments@.len() ==> ((#[trigger] commitments@[i]).degree_bound is Some ==> commitments@[i].degree_bound->Some_0 <= vk.comm_key@.len() - 1),
+        min(proof.l_vec@.len(), proof.r_vec@.len()) < 32,
+    ensures
+        (res is Some) == ipa_relation(vk, commitments@, values@, point, proof, old(sponge).st@, min(commitments@.len(), values@.len())),   // name=ipa.succinct_check.relation props=C10,C02,C04
+        res is Some ==> fviews(res->Some_0.0@) == ipa_rcs(ipa_first(ipa_comb(vk, commitments@, values@, point, proof, old(sponge).st@, min(commitments@.len(), values@.len())), point@,
+            ipa_acc_v(commitments@, values@, point@, (vk.comm_key@.len() - 1) as nat, old(sponge).st@, min(commitments@.len(), values@.len()))), proof.l_vec@, proof.r_vec@, min(proof.l_vec@.len(), proof.r_vec@.len())),   // name=ipa.succinct_check.check_polynomial_challenges props=C10
+        final(sponge).st@ == sp_iter(old(sponge).st@, 1 + 2 * min(commitments@.len(), values@.len())),   // name=ipa.succinct_check.squeeze_schedule props=C11
+//@body
+//@rw * /round_challenge\.inverse\(\)\.unwrap\(\)/ => round_challenge.inverse().unwrap_abort()
+//@after start
+        let ghost values0 = values@;
+//@loop 1 kw=for name=it
+            invariant it.index@ <= min(commitments@.len(), values0.len()), d == vk.comm_key@.len() - 1,
+                sponge.st@ == sp_iter(old(sponge).st@, 1 + 2 * it.index@ as nat),
+                cur_challenge@ == sp_chal(old(sponge).st@, 2 * it.index@ as nat),
+                combined_v@ == ipa_acc_v(commitments@, values0, point@, d as nat, old(sponge).st@, it.index@ as nat),
+                combined_commitment_proj@ == ipa_acc_c(commitments@, old(sponge).st@, it.index@ as nat),
+//@at /for \(labeled_commitment, value\) in labeled_commitments\.zip\(values\) \{/
+            proof { reveal_with_fuel(sp_iter, 4); }
+//@loop 2 kw=for name=it2
+            invariant it2.index@ <= min(proof.l_vec@.len(), proof.r_vec@.len()),
+                round_challenges@.len() == it2.index@,
+                round_challenge@ == ipa_rc(first_rc, proof.l_vec@, proof.r_vec@, it2.index@ as nat),
+                fviews(round_challenges@) =~= ipa_rcs(first_rc, proof.l_vec@, proof.r_vec@, it2.index@ as nat),
+                round_commitment_proj@ == ipa_rcomm(start_rcomm, first_rc, proof.l_vec@, proof.r_vec@, it2.index@ as nat),
+//@after /let mut cur_challenge: G::ScalarField =/
+        proof { reveal_with_fuel(sp_iter, 3); }
+//@after /let mut round_commitment_proj =/
+        let ghost first_rc = round_challenge@; let ghost start_rcomm = round_commitment_proj@;
+        proof { reveal_with_fuel(sp_iter, 2); }
+//@at /for \(l, r\) in l_iter\.zip\(r_iter\) \{/
+            let ghost rcs0 = round_challenges@;
+//@loopend 2
+            proof {
+                assert(round_challenges@ == rcs0.push(round_challenge));
+                let tgt = ipa_rcs(first_rc, proof.l_vec@, proof.r_vec@, (it2.index@ + 1) as nat);
+                assert forall|i: int| 0 <= i < round_challenges@.len() implies fviews(round_challenges@)[i] == tgt[i] by {
+                    if i < rcs0.len() { assert(fviews(rcs0)[i] == ipa_rcs(first_rc, proof.l_vec@, proof.r_vec@, it2.index@ as nat)[i]); }
+                }
+                assert(fviews(round_challenges@) =~= tgt);
+            }
+//@before /let check_poly =/
+        proof { reveal_with_fuel(dot, 3); }
 //@end
 
 //@fn id=ipa.check_degrees_and_bounds file=poly-commit/src/ipa_pc/mod.rs scope="impl<G, D, P> InnerProductArgPC<G, D, P>" name=check_degrees_and_bounds props=C04,C17
